@@ -27,7 +27,8 @@ RULE = ("programs = every statement sequence (<=3 top-level statements plus the 
         "enclosing sequence, IF-THEN[-ELSE]} up to the size bound in bounds(); "
         "elements = program x every consecutive statement range of every sequence "
         "(routine body, loop body, if/else body) x {ProfileTrans, ExtractTrans, "
-        "NanTestTrans, ReadOnlyVerifyTrans} x {default name, explicit region_name}, "
+        "NanTestTrans, ReadOnlyVerifyTrans} x {default name, explicit region_name "
+        "(quick: explicit only for ProfileTrans)}, "
         "plus ordered pairs of ranges (nested both ways, adjacent, disjoint, "
         "overlapping) x transformation pairs x naming {default/default, same "
         "explicit name twice, two explicit names, default+explicit}; inputs = one "
@@ -37,7 +38,7 @@ RULE = ("programs = every statement sequence (<=3 top-level statements plus the 
         "PSyclone accepted it and at least one run entered a region; distinct = "
         "distinct (program, ranges, transformations, names) key")
 ASSUMPTIONS = [
-    "gfortran -O0 -fcheck=bounds executing the FortranWriter output against the stub "
+    "gfortran -O0 executing the FortranWriter output against the stub "
     "library is the reference for every accepted element; the E1 interpreter runs "
     "the transformed (un-lowered) PSyIR of every GOTO-free element on the same "
     "inputs and must print the same trace and final counters (disagreement = "
@@ -54,11 +55,19 @@ ASSUMPTIONS = [
 
 # size bounds: (max program size, max size of programs with a GOTO)
 TIERS = {
-    "quick": {"single": (3, 3), "pair": (2, 2), "batch": 100},
-    "thorough": {"single": (4, 4), "pair": (3, 3), "batch": 100},
+    "quick": {"single": (3, 3), "pair": (2, 2), "pair_extra": ["AAA"],
+              "batch": 100},
+    "thorough": {"single": (4, 4), "pair": (3, 3), "pair_extra": [],
+                 "batch": 100},
 }
 N3_PATH_CAP = 64
-SINGLE_NAMES = [None, "A"]
+# single regions: naming variants per transformation (None = default name)
+SINGLE_NAMES = {
+    "quick": {"ProfileTrans": [None, "A"], "ExtractTrans": [None],
+              "NanTestTrans": [None], "ReadOnlyVerifyTrans": [None]},
+    "thorough": {"ProfileTrans": [None, "A"], "ExtractTrans": [None, "A"],
+                 "NanTestTrans": [None, "A"], "ReadOnlyVerifyTrans": [None, "A"]},
+}
 # (transformation of region 1, of region 2, [name configurations])
 PAIR_CONFIGS = {
     "quick": [("ProfileTrans", "ProfileTrans", ["dd", "AA", "AB", "dA"]),
@@ -81,7 +90,13 @@ _TIER = "quick"
 def _programs(tier, mode):
     key = (tier, mode)
     if key not in _PROGS:
-        _PROGS[key] = P.programs(*TIERS[tier][mode])
+        progs = P.programs(*TIERS[tier][mode])
+        if mode == "pair" and TIERS[tier]["pair_extra"]:
+            have = {k for k, _ in progs}
+            single = dict(_programs(tier, "single"))
+            progs = progs + [(k, single[k]) for k in TIERS[tier]["pair_extra"]
+                             if k not in have]
+        _PROGS[key] = progs
     return _PROGS[key]
 
 
@@ -93,10 +108,13 @@ def bounds(tier):
                           "max_size_goto": TIERS[tier]["single"][1],
                           "programs": len(sing),
                           "ranges": sum(len(P.ranges(p)) for _, p in sing),
-                          "transformations": R.TRANS,
-                          "names": ["default", list(R.EXPLICIT["A"])]},
+                          "transformations_and_names": {
+                              t: ["default" if n is None else list(R.EXPLICIT[n])
+                                  for n in names]
+                              for t, names in SINGLE_NAMES[tier].items()}},
         "two_regions": {"max_size": TIERS[tier]["pair"][0],
                         "max_size_goto": TIERS[tier]["pair"][1],
+                        "extra_programs": TIERS[tier]["pair_extra"],
                         "programs": len(pair),
                         "ordered_range_pairs": sum(len(P.ranges(p)) ** 2
                                                    for _, p in pair),
@@ -145,7 +163,8 @@ def cases(tier):
     group, count = [], 0
     for idx, (_key, prog) in enumerate(progs):
         group.append(idx)
-        count += len(P.ranges(prog)) * len(R.TRANS) * len(SINGLE_NAMES)
+        count += len(P.ranges(prog)) * sum(len(v) for v in
+                                           SINGLE_NAMES[tier].values())
         if count >= GROUP_ELEMENTS:
             yield {"key": f"s{group[0]:05d}-{group[-1]:05d}", "mode": "single",
                    "progs": group}
@@ -170,7 +189,7 @@ def elements(case, tier):
             pkey, prog = progs[idx]
             for rng in P.ranges(prog):
                 for tname in R.TRANS:
-                    for name in SINGLE_NAMES:
+                    for name in SINGLE_NAMES[tier][tname]:
                         yield pkey, prog, [{"t": tname, "r": rng, "nm": name}]
     else:
         pkey, prog = _programs(tier, "pair")[case["prog"]]
@@ -244,6 +263,8 @@ def _refusal_class(text):
         return "refused:different-parents"
     if "not consecutive" in text:
         return "refused:not-consecutive"
+    if " region because " in text or " region around " in text:
+        return "refused:jump-across-region"     # (only with fixes/C28-psydata-*)
     return "refused:other"
 
 
